@@ -139,11 +139,12 @@ def _play(h):
     for op in h:
         real, mod, ok = fl.apply_op(fs, model, op)
         applied.append(fl.describe_op(op))
-        if ok and mod is not None:
-            # model and set must agree on what C12 owns (not judged here)
-            if [f["name"] for f in fs.filters] != model.names() or any(
-                    f["enabled"] != m.enabled for f, m in zip(fs.filters, model.f)):
-                return fs, model, applied, True
+        # model and set must agree on what C12 owns (not judged here); also checked after a
+        # definition the builder refused half-way (atomicity of a refused update is not
+        # demanded by any property, but the model no longer describes such a set)
+        if [f["name"] for f in fs.filters] != model.names() or any(
+                f["enabled"] != m.enabled for f, m in zip(fs.filters, model.f)):
+            return fs, model, applied, True
     return fs, model, applied, False
 
 
